@@ -5,6 +5,18 @@ V = os.path.dirname(os.path.dirname(os.path.abspath(__file__)))
 props = [json.loads(l) for l in open(os.path.join(V, 'properties.jsonl'))]
 
 CHECKS = {
+ 'C09': dict(level='model_checking', design='3/C09',
+   text='Cmd.tla models goal resolution and the applied-patches prefix rule; MC_Cmd enumerates every plan of up to 3 (thorough 4) invocations over a 4-patch series with an optional failing patch, checks in the model that composing invocations equals one push to the furthest goal, and emits each plan; the real binary executes the plan as consecutive processes (mixed thread counts) and its exit statuses, tree, rejects and applied-patches are compared with the model and with a real single push.',
+   note='Trusted: TLC, scen.py. Backups are excluded from the comparison as the property says.',
+   technique='TLA+ model of the command layer (Cmd.tla) enumerated by TLC, sessions replayed as consecutive real processes'),
+ 'C16': dict(level='model_checking', design='3/C16',
+   text='Cmd.tla models the series-line grammar (getopts semantics incl. -p N, --strip=N, -RpN, duplicates, unknown options, non-numeric values, comments, blank lines); every line up to 3 (thorough 4) words is enumerated by TLC with its verdict (strip, reverse / ignored / error) and run against files at three path depths holding either value; the old-if-exists-else-new rule is checked on all Outcome scenarios containing a differing-names file patch, with 1 and 3 threads.',
+   note='Trusted: TLC, scen.py. Strip levels beyond the path depth are not exercised (adversarial).',
+   technique='TLA+ model of the series grammar and name resolution enumerated by TLC, replayed into the binary'),
+ 'C17': dict(level='model_checking', design='3/C17',
+   text='Cmd.Resolve defines refusal (applied-patches not a prefix incl. longer/reordered/edited/duplicated, unknown or already applied goal) and MC_Cmd enumerates every (series<=3, applied variant, goal, missing/unparseable patch position) combination; each is a real workspace run with 1 and 2 threads: exit must be 1 (never a crash), stderr non-empty and the recursive snapshot incl. inode and mtime unchanged; otherwise the push result must be the model one.',
+   note='Trusted: TLC, snapshotter.',
+   technique='TLA+ model of the quilt-state checks (Cmd.tla) enumerated exhaustively by TLC, replayed into the binary'),
  'C05': dict(level='model_checking', design='3/C05',
    text='TLC enumerates scenarios (starting tree x series of 1-3 patches over a universe of 17 abstract file patches x configuration) and computes the reference Outcome (Outcome.tla: tree = first k patches, k names recorded, exit 0 iff all applied); a stratified seeded sample (thorough: far larger) is materialised and pushed by the real binary with 1 and 2-4 threads and the full snapshot (paths, bytes, modes, .pc/applied-patches, exit status; crash = violation) compared with the reference.',
    note='Trusted: TLC, scen.py concretiser (cells <-> bytes bijection), tmpfs workspaces. Adversarial renames (absent source) are skipped. The algorithm-level model (Push.tla) and forced schedules are added by C06.',
